@@ -246,6 +246,20 @@ def extra_cases():
         a, d, _ = _run(toml=toml)
         if not (isinstance(a, tuple) and opt in a[1]):
             bad.append((f"ill-typed {opt} in fpm.toml must be rejected naming the option", a if isinstance(a, tuple) else getattr(a, opt), f"error mentioning '{opt}'"))
+    # a flag is not a number: `true` for a numeric option is ill-typed in fpm.toml as it is in the project file
+    for opt in ("graph_maxdepth", "graph_maxnodes", "max_frontpage_items", "parallel"):
+        a, d, _ = _run(toml=f"{opt} = true\n")
+        b, d2, _ = _run(md_meta=f"{opt}: true\n")
+        if not (isinstance(a, tuple) and opt in a[1]) or not (isinstance(b, tuple) and opt in b[1]):
+            bad.append((f"{opt} = true must be rejected naming the option in both formats", {"fpm.toml": a if isinstance(a, tuple) else repr(getattr(a, opt)), "project file": b if isinstance(b, tuple) else repr(getattr(b, opt))},
+                        f"errors mentioning '{opt}'"))
+    # an option set to the empty string is set: `docmark_alt:` (nothing after the colon) switches the alternative doc comments off like `docmark_alt = ""`
+    for opt in ("docmark_alt", "predocmark_alt", "year"):
+        a, d, _ = _run(md_meta=f"{opt}:\nrevision: r1\n")
+        b, d2, _ = _run(toml=f'{opt} = ""\n')
+        va, vb = (a if isinstance(a, tuple) else getattr(a, opt)), (b if isinstance(b, tuple) else getattr(b, opt))
+        if va != vb or va != "":
+            bad.append((f"`{opt}:` with an empty value", {"project file": va, "fpm.toml": vb}, ""))
     a, d, _ = _run(md_meta="graph_maxdepth: x\n")
     if not (isinstance(a, tuple) and "graph_maxdepth" in a[1]):
         bad.append(("ill-typed integer in the project file must be rejected naming the option", a if isinstance(a, tuple) else a.graph_maxdepth, "error mentioning 'graph_maxdepth'"))
